@@ -1,7 +1,7 @@
 """C14 — hazard pointers: nothing is reclaimed while protected; garbage stays bounded (structural part)."""
-from core import strip, is_field, order_ge, key_str, key_mentions
+from core import deatomic, strip, is_field, order_ge, key_str, key_mentions
 from facts import AnalysisBroken
-from rules import (check_init, nodeset, callpred, atom_from, reach, ev, Unevaluable, is_full_fence, is_param_load, is_var_load, summary_value)
+from rules import (field_load, check_init, nodeset, callpred, atom_from, reach, ev, Unevaluable, is_full_fence, is_param_load, is_var_load, summary_value)
 from symword import Machine
 import hazard
 
@@ -64,7 +64,7 @@ def run(ctx):
         defs = [e for e in sc.defs().get(cur[0], []) if e[0] in ("init", "assign")]
         inits = [e for e in defs if e[0] == "init"]
         steps = [e for e in defs if e[0] == "assign"]
-        hk = sc.key(inits[0][2], resolve=True) if inits else ("?",)
+        hk = deatomic(sc.key(inits[0][2], resolve=True)) if inits else ("?",)
         if not (hk[0] == "*" and key_mentions(hk, lambda x: x[0] == "f" and x[1] == R and x[2] == "head")):
             bad = "the walk starts at `%s`, not at the current head of the record list" % (inits[0][2].text if inits else "?")
         if len(steps) != 1 or sc.key(steps[0][2]) != ("f", R, "next", ("*", ("var", "cur_record", cur[0]))):
@@ -219,8 +219,8 @@ def run(ctx):
     if len(scans) != 1 or not link or not inc:
         bad = "shape not recognised"
     else:
-        isC = lambda n: n.k == "ImplicitCastExpr" and n.ck == "LValueToRValue" and strip(n).k == "MemberExpr" and strip(n).field == "retired_count"
-        isT = lambda n: n.k == "ImplicitCastExpr" and n.ck in ("LValueToRValue",) and strip(n).k == "MemberExpr" and strip(n).field == "retire_threshold"
+        isC = field_load("retired_count")
+        isT = field_load("retire_threshold")
         for c, t in ((1, 4), (3, 4), (4, 4), (5, 4), (100, 8)):
             got = reach(fr, scans, atom_from([(isC, c), (isT, t)]))
             if got != (c >= t):
@@ -265,7 +265,7 @@ def run(ctx):
                 bad = bad or "`threads` does not count this record plus one per older record"
         if cp.dominated_by(bump[0].node, nodeset([c.node])) is not None:
             bad = bad or "older records are bumped before the new record is published"
-        isK = lambda n: n.k == "ImplicitCastExpr" and n.ck == "LValueToRValue" and strip(n).k == "MemberExpr" and strip(n).field == "hazard_pointers_count"
+        isK = field_load("hazard_pointers_count")
         try:
             if ev(cp, bump[0].value, atom_from([(isK, 3)])) != 6:
                 bad = bad or "older records are bumped by `%s`" % bump[0].value.text
@@ -281,7 +281,7 @@ def run(ctx):
         bad = "shape not recognised"
     else:
         ini = [e for e in sc.defs().get(mp[0], []) if e[0] == "init"]
-        isT = lambda n: n.k == "ImplicitCastExpr" and strip(n) is not None and strip(n).k == "MemberExpr" and strip(n).field == "retire_threshold" and n.ck == "LValueToRValue"
+        isT = field_load("retire_threshold")
         try:
             if not ini or ev(sc, ini[0][2], atom_from([(isT, 12)])) < 6:
                 bad = "max_pointers for threshold 12 is %s" % (ev(sc, ini[0][2], atom_from([(isT, 12)])) if ini else None)
@@ -289,8 +289,8 @@ def run(ctx):
                 bad = bad or "plist allocation for 6 entries is too small"
         except Unevaluable:
             bad = bad or "not evaluable"
-        isPS = lambda n: n.k == "ImplicitCastExpr" and n.ck == "LValueToRValue" and strip(n).k == "MemberExpr" and strip(n).field == "plist_size"
-        isPL = lambda n: n.k == "ImplicitCastExpr" and n.ck == "LValueToRValue" and strip(n).k == "MemberExpr" and strip(n).field == "plist"
+        isPS = field_load("plist_size")
+        isPL = field_load("plist")
         for ps, need in ((4, True), (6, False), (9, False)):
             got = reach(sc, mal, atom_from([(isPS, ps), (isPL, 4096), (is_var_load(mp[0]), 6)]))
             if got != need:
